@@ -125,9 +125,9 @@ HUGE = 2 ** 70            # in units of 1/8; 2^67 as a float, exact
 
 # cases per pass: meta, stats, fake, perc, quant
 SIZES = {"quick": (80, 240, 240, 240, 120),
-         "thorough": (1200, 3000, 3000, 3000, 1500)}
-N_WARM = {"quick": 6, "thorough": 32}
-N_DTYPE = {"quick": 30, "thorough": 400}
+         "thorough": (800, 2000, 2000, 2000, 1000)}
+N_WARM = {"quick": 6, "thorough": 24}
+N_DTYPE = {"quick": 30, "thorough": 200}
 
 HEADER = ("From Coq Require Import ZArith List.\nImport ListNotations.\n"
           "From Verif Require Import Model.C12.\n")
